@@ -93,12 +93,15 @@ CHECKS["C19"] = dict(
 CHECKS["C09"] = dict(
     category="model_checking", design_ref="DESIGN.md §C09",
     text="Design: TLC checks the population protocol of division on spec/Tissue (DivisionReplaces: the mother is replaced by exactly two cells with fresh "
-         "ids, OnlyReadyDivide, IdsUnique, IdsFresh) for every set of cells dividing in one iteration. Implementation: real cell_divider::divide_cell on "
+         "ids, OnlyReadyDivide, IdsUnique, IdsFresh) for every set of cells dividing in one iteration, and the topology of the cut on spec/Mesh/MeshCut "
+         "(every mother of a small family, every separation of its nodes by a plane: both capped halves are closed oriented manifolds iff both sides are "
+         "connected). Implementation: real cell_divider::divide_cell on "
          "generated mothers (spheres, stretched spheres, boxes; symmetric so that the plane passes through nodes, and jittered; each coordinate axis in "
          "both directions, diagonal and generic axes; several l_min/size ratios; unused slots before the call): TLC (DivideTrace) evaluates every C01 "
          "predicate of spec/Mesh on both daughters, the real edge index, and the facts 'mother is exactly what a compaction leaves', 'own side of the plane', "
          "'volumes add up', 'target volume halved', 'same type', 'outward'. Several cells dividing in one real solver iteration are validated by TissueTrace.",
-    note="The geometric cut is not re-derived in the specification: its result is validated. Volume sum tolerance 20% (coarse test meshes); a clean failure "
+    note="MeshCut is a design-level model of the cut (fan cap instead of the Delaunay cap); the real cut is followed by a remeshing pass inside "
+         "divide_cell, so it is bound to the code through its conclusion only: the validity of the real daughters is what DivideTrace decides. Volume sum tolerance 20% (coarse test meshes); a clean failure "
          "(e.g. axis = -z, plane through nodes) satisfies the property.",
     technique="TLC on spec/Tissue (population protocol) + TLC validation (DivideTrace, spec/Mesh predicates) of real divide_cell results")
 
